@@ -8,6 +8,7 @@ import (
 	"encoding/json"
 	"io"
 	"math/rand"
+	"time"
 
 	"github.com/aclements/go-moremath/graph"
 	"github.com/aclements/go-moremath/graph/graphalg"
@@ -114,20 +115,37 @@ func graphRecord(out io.Writer, args []string) error {
 		ld.N, ld.Adj = n, copyAdj(g)
 		enc.Encode(ld)
 		roots := []int{0, rng.Intn(n)}
+		hung := false
 		protect := func(ev *gEvent, f func()) {
-			defer func() {
-				if r := recover(); r != nil {
-					ev.Panicked = 1
-				}
+			done := make(chan struct{})
+			go func() {
+				defer close(done)
+				defer func() {
+					if r := recover(); r != nil {
+						ev.Panicked = 1
+					}
+				}()
+				f()
 			}()
-			f()
+			select {
+			case <-done:
+			case <-time.After(10 * time.Second):
+				ev.Panicked = 2 // did not return
+				hung = true
+			}
 		}
 		if has("orders") {
 			for _, r := range roots {
 				ev := blank("Orders", idx)
 				ev.Root = r
 				protect(&ev, func() { ev.Pre, ev.Post = graphalg.PreOrder(g, r), graphalg.PostOrder(g, r) })
+				if hung {
+					ev.Pre, ev.Post = []int{}, []int{}
+				}
 				enc.Encode(ev)
+				if hung {
+					return nil
+				}
 			}
 		}
 		if has("scc") {
@@ -158,12 +176,19 @@ func graphRecord(out io.Writer, args []string) error {
 					bg := graph.MakeBiGraph(g)
 					ev.IDom = graphalg.IDom(bg, r)
 					df := graphalg.DomFrontier(bg, r, nil)
-					ev.DF = make([][]int, n)
+					dfc := make([][]int, n)
 					for i := range df {
-						ev.DF[i] = append([]int{}, df[i]...)
+						dfc[i] = append([]int{}, df[i]...)
 					}
+					ev.DF = dfc
 				})
+				if hung {
+					ev.IDom, ev.DF = []int{}, [][]int{}
+				}
 				enc.Encode(ev)
+				if hung {
+					return nil
+				}
 			}
 		}
 	}
